@@ -314,7 +314,8 @@ def draw_op(rng, kind, ctr):
         rng.shuffle(names)
         op.update(room=room, tickers=[{'u': u, 't': f't{val}{u[0]}'} for u in names])
     elif kind == 'ticker_added':
-        op.update(room=room, user=_other(rng), text=f't{val}')
+        # (an empty ticker text is legal on the wire)
+        op.update(room=room, user=_other(rng), text='' if rng.random() < 0.15 else f't{val}')
     elif kind == 'user_status':
         op.update(user=rng.choice(USERS), status=rng.randint(0, 2), priv=rng.random() < 0.5)
     elif kind == 'user_stats':
@@ -509,6 +510,12 @@ def corpus(tier):
                 _directed_op('user_stats', user='bob', val=3), _directed_op('user_status', user='bob', val=4),
                 {'k': 'relogin', 'gap': 0.3}, _directed_op(kind, val=5, gap=0.3), {'k': 'gc', 'gap': 0.2},
                 _directed_op('user_status', user='alice', val=6, gap=0.2)]))
+    # 3d. empty strings where the wire allows them: an empty ticker text (set, replaced, removed), an empty chat message
+    for first in ('t1', ''):
+        out.append(dict(base, ops=[_directed_op('join_self', val=1), dict(_directed_op('ticker_added', val=2), text=first),
+                                   dict(_directed_op('ticker_added', val=3), text=''),
+                                   dict(_directed_op('ticker_added', user='carol', val=4), text=''),
+                                   _directed_op('ticker_removed', val=5), dict(_directed_op('room_chat', val=6), text='')]))
     # 4. the composition patterns, one fixed instance each
     g = lambda k, **kw: dict({'k': k, 'gap': 0.05}, **kw)   # noqa: E731
     out.append(dict(base, ops=[g('member_granted', room='r2', user='bob'), g('op_granted', room='r2', user='bob'),
